@@ -467,6 +467,18 @@ pub fn api_harness(spec: &RunSpec) -> RunOutput {
                 let (a, b) = aldrin_core::channel::bounded(cap.max(1));
                 (Inner::Bounded(a), Inner::Bounded(b))
             }
+            "tokio" => {
+                let (a, b) = crate::io::bi_pipe(
+                    &mut buggify.fork(400 + i as u64),
+                    if cap == 0 { 1 << 20 } else { cap * 16 },
+                    *[1usize, 3, 64, 4096].get(cap % 4).unwrap(),
+                    pending_permille,
+                );
+                (
+                    Inner::Tokio(Box::pin(aldrin_core::tokio::TokioTransport::new(a))),
+                    Inner::Tokio(Box::pin(aldrin_core::tokio::TokioTransport::new(b))),
+                )
+            }
             "sim" => {
                 let (a, b, _ctl) = transport::pipe(&format!("client{i}"), if cap == 0 { usize::MAX } else { cap }, 0, buggify.fork(100 + i as u64));
                 (Inner::Sim(a), Inner::Sim(b))
